@@ -17,7 +17,9 @@
  *   the child calls event_reinit(); then child and — after the child has exited — the parent
  *   run the same fixed continuation: loop / advance+loop / raise+loop / del R0,S0+loop /
  *   add R0,S0+raise+loop / private fresh pipe + event + write + loop / del W0+loop /
- *   wake-up+loop / trailing raise and wake-up that nobody consumes.
+ *   wake-up+loop / trailing raise and wake-up that nobody consumes.  -P cont=1 selects a second
+ *   continuation: delete everything, loop on the empty base, add everything again, timer + signal +
+ *   manual activation, partial deletes, wake-up, signal re-add, trailing raise and wake-up.
  *
  * Oracle:
  *   differential  the child's callback log (event, flags, per iteration) from the fork point on
@@ -167,6 +169,32 @@ static void continuation(void)
 	if (base->th_notify_fn) base->th_notify_fn(base);
 }
 
+/* second continuation (-P cont=1): empty the base completely, run it empty, then add
+ * everything again — nothing of the pre-fork registration survives in either process */
+static void continuation_b(void)
+{
+	one_loop();
+	for (int e = 0; e < NPRE; e++) if (added[e]) xdel(e);
+	raise(SIGUSR1);                       /* no event: goes to the application's handler in this process */
+	one_loop();
+	for (int e = 0; e < NPRE - 1; e++) xadd(e);      /* R0 R1 W0 T0 S0 */
+	if (IS_EPOLL) xadd(EX);
+	one_loop();
+	vclock_advance(5000); raise(SIGUSR1); event_active(&ev[R1], EV_READ, 1);
+	one_loop();
+	xdel(T0); xdel(W0); vclock_advance(5000);
+	one_loop();
+	if (base->th_notify_fn) { if (base->th_notify_fn(base) != 0) FAIL(K("notify-failed"), "th_notify_fn failed"); }
+	else FAIL(K("wakeup-lost"), "the base has no wake-up function any more (%s)", bk_in_child ? "child after event_reinit" : "parent");
+	raise(SIGUSR1);
+	one_loop();
+	xdel(S0);
+	one_loop();
+	xadd(S0);
+	raise(SIGUSR1);
+	if (base->th_notify_fn) base->th_notify_fn(base);
+}
+
 static void teardown(void)
 {
 	for (int e = 0; e < NEVT; e++) if (e != RF || rf_open) event_del(&ev[e]);
@@ -295,7 +323,7 @@ static void body(void)
 			one_loop();
 			if (fork_armed) { fork_armed = 0; LOG("FORK-after-idle-loop "); fork_here(); }
 		}
-		continuation();
+		if (mc_param("cont", 0)) continuation_b(); else continuation();
 		if (bk_in_child) child_finish();
 		logbuf[loglen] = 0;
 		mc_observe("%s|| child: %s || parent: %s", prefork_log, child_log, logbuf);
